@@ -18,7 +18,9 @@ type faultPlan struct {
 	Short     bool // writes: short write then error (else error before effect)
 }
 
-func (p faultPlan) String() string { return fmt.Sprintf("fail-io[%d,+%d) short=%v", p.At, p.Burst, p.Short) }
+func (p faultPlan) String() string {
+	return fmt.Sprintf("fail-io[%d,+%d) short=%v", p.At, p.Burst, p.Short)
+}
 
 // runFaultHistory re-runs a history with a fault plan; afterwards the file is
 // closed and reopened and its logical state is recorded.
@@ -79,13 +81,16 @@ func runFaultHistory(c HistCfg, plan *faultPlan) (*core.Trace, []simdisk.Op) {
 	return tr, env.Disk.Ops()
 }
 
-// CheckC08: I/O failures are contained.
-func CheckC08(r *core.Run) {
-	defer exploreWriter(r)()
-	r.Rule = "for base histories (bounded/unbounded, growing past the mapped size, preallocated) every selected I/O call index x failure mode (error before effect, short write, failing sync/truncate/size/mmap) x burst length is injected into a re-run of the same history; every API call runs under recover()+watchdog; TxTrace.tla judges: failing operations return errors only when a failure was injected into that transaction (or the file is full), aborted commits leave the projection of Begin, reads keep returning the committed model, CrashSafe holds on the real I/O (incl. the state of a failed attempt whose header may have reached the disk), and a plain reopen at the end shows an allowed state; distinct = (history, call index, mode, burst)"
-	r.Assume("a failed sync leaves the written data in the volatile image (page cache) and not in the durable image")
-	nb := r.Pick(6, 16)
-	base := baseCfgs(r, "c08", nb, func(i int, c *HistCfg) {
+// faultJob is one re-run of a base history with an injected failure.
+type faultJob struct {
+	c    HistCfg
+	plan *faultPlan
+}
+
+// faultRuns learns the I/O call sequence of nb base histories and re-runs each with a failure
+// injected at about perBase of its call indices (x burst lengths).
+func faultRuns(r *core.Run, name string, nb, perBase int, extraBurst bool) ([]*core.Trace, []faultJob) {
+	base := baseCfgs(r, name, nb, func(i int, c *HistCfg) {
 		c.Txs = r.Pick(10, 20)
 		c.KeepSmall = 0
 		c.ReadAll = false
@@ -104,11 +109,7 @@ func CheckC08(r *core.Run) {
 			c.Prealloc = i%2 == 1
 		}
 	})
-	type job struct {
-		c    HistCfg
-		plan *faultPlan
-	}
-	var jobs []job
+	var jobs []faultJob
 	// base runs: learn the I/O call sequence
 	for _, c := range base {
 		_, ops := runFaultHistory(c, nil)
@@ -123,7 +124,7 @@ func CheckC08(r *core.Run) {
 				rare++
 			}
 		}
-		stride := len(idxs)/r.Pick(24, 400) + 1
+		stride := len(idxs)/perBase + 1
 		kindAt := map[int]string{}
 		for _, op := range ops {
 			kindAt[op.Idx] = op.Kind
@@ -135,10 +136,10 @@ func CheckC08(r *core.Run) {
 				continue
 			}
 			for _, b := range []int{1, 3} {
-				jobs = append(jobs, job{c, &faultPlan{At: at, Burst: b, Short: (j/stride)%2 == 1}})
+				jobs = append(jobs, faultJob{c, &faultPlan{At: at, Burst: b, Short: (j/stride)%2 == 1}})
 			}
-			if r.Thorough() {
-				jobs = append(jobs, job{c, &faultPlan{At: at, Burst: 2, Short: (j/stride)%2 == 0}})
+			if extraBurst {
+				jobs = append(jobs, faultJob{c, &faultPlan{At: at, Burst: 2, Short: (j/stride)%2 == 0}})
 			}
 		}
 	}
@@ -148,7 +149,7 @@ func CheckC08(r *core.Run) {
 	for i, j := range jobs {
 		wg.Add(1)
 		sem <- struct{}{}
-		go func(i int, j job) {
+		go func(i int, j faultJob) {
 			defer wg.Done()
 			defer func() { <-sem }()
 			tr, _ := runFaultHistory(j.c, j.plan)
@@ -156,6 +157,15 @@ func CheckC08(r *core.Run) {
 		}(i, j)
 	}
 	wg.Wait()
+	return traces, jobs
+}
+
+// CheckC08: I/O failures are contained.
+func CheckC08(r *core.Run) {
+	defer exploreWriter(r)()
+	r.Rule = "for base histories (bounded/unbounded, growing past the mapped size, preallocated) every selected I/O call index x failure mode (error before effect, short write, failing sync/truncate/size/mmap) x burst length is injected into a re-run of the same history; every API call runs under recover()+watchdog; TxTrace.tla judges: failing operations return errors only when a failure was injected into that transaction (or the file is full), aborted commits leave the projection of Begin, reads keep returning the committed model, CrashSafe holds on the real I/O (incl. the state of a failed attempt whose header may have reached the disk), and a plain reopen at the end shows an allowed state; distinct = (history, call index, mode, burst)"
+	r.Assume("a failed sync leaves the written data in the volatile image (page cache) and not in the durable image")
+	traces, jobs := faultRuns(r, "c08", r.Pick(6, 16), r.Pick(24, 400), r.Thorough())
 	for _, t := range traces {
 		r.AddDistinct(fmt.Sprint(t.Meta))
 		r.AddEvals(int64(len(t.Events)))
